@@ -396,8 +396,19 @@ def execute(ctx, case):
         if cls.startswith("differs") and bad["missing"] and set(bad["missing"]) <= set(twins) and not bad["unexpected"]:
             cls, why = "twins:" + cls[8:], why + ": of several byte-identical lines without ID attribute (distinct stored " \
                                                 "features) not every one is returned"
+        E = (SET.get("declared") or {}).get(q["seqid"])
+        if E is not None and q["end"] is not None and q["end"] > E:
+            # naming the difference only: is it the answer to the query with its end clipped to the declared end?
+            lo, up = M.expected(uni, q["seqid"], q["start"], E, q["within"], q["strand"], q["ft"])
+            if M.judge(got, lo, up) is None:
+                cls = "directives:" + ("region" if q["api"] == "region" else "limit=")
+                why = "database imported from a file with ##sequence-region lines: the %s %s answer is that of the query end clipped to " \
+                      "the end declared for the queried seqid (features reaching beyond it are missing)" % (
+                          "region" if q["api"] == "region" else "limit=", "completely_within" if q["within"] else "overlap")
         detail = {"why": why, "query": describe(q), "n_got": len(got), "n_expected": len(lower),
                   "sql bin clause": present, "set": case["set"]}
+        if E is not None:
+            detail["end declared by ##sequence-region for the queried seqid"] = E
         by_id = {f["id"]: f for f in feats}
         for k, ids in bad.items():
             detail[k] = [[i, by_id[i]["seqid"], by_id[i]["start"], by_id[i]["end"], by_id[i]["strand"],
